@@ -90,9 +90,14 @@ def body(name, a, b, c):
     return tokval(name, t)
 
 
+POSONLY = False  # the functions of the current history take their first parameter positionally only
+
+
 def spell(key, s):
     a, b, c = key
     s = s % 6
+    if POSONLY and s in (2, 3):
+        s -= 2
     if s == 0:
         args, kw = (a, b), {"c": c}
     elif s == 1:
@@ -124,10 +129,33 @@ def key_fn_parity_method(args, kwargs):
     return (id(args[0]), a % 2)
 
 
-def build(kind, maxsize):
+def build(kind, maxsize, posonly=False):
     from asynq import asynq as A
     from asynq.tools import acached_per_instance, alazy_constant, alru_cache
 
+    if posonly and kind == "lru_fn":
+        @alru_cache(maxsize=maxsize)
+        @A()
+        def f(a, /, b=2, *, c=3):
+            return (yield from body("f", a, b, c))
+
+        return f, None
+    if posonly and kind == "lru_method":
+        class K(object):
+            @alru_cache(maxsize=maxsize)
+            @A()
+            def m(self, a, /, b=2, *, c=3):
+                return (yield from body("m", a, b, c))
+
+        return None, K
+    if posonly and kind == "per_instance":
+        class K(object):
+            @acached_per_instance()
+            @A()
+            def m(self, a, /, b=2, *, c=3):
+                return (yield from body("m", a, b, c))
+
+        return None, K
     if kind == "lru_fn":
         @alru_cache(maxsize=maxsize)
         @A()
@@ -218,7 +246,11 @@ def run_history(kind, hist, seed):
     if kind == "lazy":
         return run_lazy(hist, env, stats)
 
-    f, K = build(kind, hist["maxsize"])
+    global POSONLY
+    POSONLY = bool(hist.get("posonly"))
+    if POSONLY:
+        stats["histories_with_a_positional_only_parameter"] = 1
+    f, K = build(kind, hist["maxsize"], POSONLY)
     insts = {}
     model = LRU(hist["maxsize"]) if kind.startswith("lru") else None
     models = {}
@@ -407,35 +439,41 @@ def run_history(kind, hist, seed):
                 env.fail_next = False
                 d = pmodel.setdefault(iname, {})
                 hits = [k1 in d, k2 in d]
-                bad = (k1, k2)[which]
-                env.fail_keys = {bad}
+                bads = {k1, k2} if which == 2 else {(k1, k2)[which]}
+                env.fail_keys = set(bads)
                 nexec = len(env.execs)
                 (a1, kw1), (a2, kw2) = spell(k1, 0), spell(k2, 1)
                 ts = [insts[iname].m.asynq(*a1, **kw1), insts[iname].m.asynq(*a2, **kw2)]
                 try:
                     try:
                         yield ts
-                    except UserErr:
-                        pass
+                    except Exception:
+                        pass  # (what each call ended with is looked at below)
                 finally:
                     env.fail_keys = set()
                 stats["parallel"] += 1
                 stats["pairs_with_one_failing_body"] = stats.get("pairs_with_one_failing_body", 0) + 1
+                if which == 2:
+                    stats["pairs_with_both_bodies_failing"] = stats.get("pairs_with_both_bodies_failing", 0) + 1
                 for j, (k, t) in enumerate(zip((k1, k2), ts)):
                     if not t.is_computed():
                         # (the consumer was resumed with the other's failure first: finish this one)
                         try:
                             t.value()
-                        except UserErr:
+                        except Exception:
                             pass
                     failed = t.error() is not None
                     if hits[j]:
                         if failed or t.value() != d[k]:
                             viol.append(("hit-returned-wrong-value", {"op": op, "expected": d[k], "observed": repr(t.error() or t.value())[:80]}))
                             return
-                    elif k == bad:
+                    elif k in bads:
                         if not failed:
                             viol.append(("raising-body-did-not-raise-to-caller", {"op": op}))
+                            return
+                        if not isinstance(t.error(), UserErr):
+                            # (both bodies failing: each call still gets ITS body's exception)
+                            viol.append(("raising-body's-exception-replaced", {"op": op, "observed": repr(t.error())[:120]}))
                             return
                     else:
                         toks = [tk for (n, na, tk) in env.execs[nexec:] if na == k]
@@ -677,7 +715,7 @@ def make_history(rnd, kind):
             ops.append(["pair_same", iname, list(rnd.choice(keys)), rnd.randrange(6), rnd.randrange(6)])
         elif kind == "per_instance" and r < 0.35 and len(keys) >= 2:
             k1, k2 = rnd.sample(keys, 2)
-            ops.append(["pair_fail", iname, list(k1), list(k2), rnd.randrange(2)])
+            ops.append(["pair_fail", iname, list(k1), list(k2), rnd.randrange(3)])
         elif kind.startswith("lru") and r < 0.12:
             calls = [[list(rnd.choice(keys)), rnd.randrange(6)] for _ in range(rnd.randint(2, 4))]
             if rnd.random() < 0.5:
@@ -685,7 +723,7 @@ def make_history(rnd, kind):
             ops.append(["gather", iname, calls])
         else:
             ops.append(["call", iname, list(rnd.choice(keys)), rnd.randrange(6), rnd.random() < 0.3, rnd.random() < 0.12])
-    return {"maxsize": rnd.randint(1, 4), "ops": ops}
+    return {"maxsize": rnd.randint(1, 4), "ops": ops, "posonly": kind in ("lru_fn", "lru_method", "per_instance") and rnd.random() < 0.3}
 
 
 KINDS = ["lru_fn", "lru_keyfn", "lru_method", "per_instance", "lazy", "lru_shared_deco", "lru_shared_deco_keyfn"]
